@@ -17,7 +17,7 @@ def last_counter_line(stdout, seg_no):
 class C16(PropBase):
     id = "C16"
     corr_fields = ['df']
-    lean_modules = ["SqModel.Props.C16"]
+    lean_modules = ["SqModel.Props.C16", "SqModel.Proofs.BridgeTable"]
     rule = ("streams of 40-120 lines mixing all formats (incl. zero-address frames, squitters with damaged parity and junk) "
             "for 3 aircraft; -f over random subsets of {0,4,5,11,16,17,18,20,21,24} plus none/all/single; -c on/off. Counter "
             "line of the real display (last 'DFn:count' line printed during the reader run) against the count of generated "
